@@ -67,6 +67,8 @@ Base == <<
   \*     split at whitespace the first root's shell word ends with the comma
   << <<"select", "">>, S1("path"), S1("from"), S1("sub,"), S1("sub/deep"), S1("where"), S1("name"), <<"=", "eq">>, S1("'*.txt'") >>,
   << S1("select"), S1("name"), S1("from"), S1("sub"), <<"depth", "maxdepth">>, S1("1,"), S1("sub/deep"), <<"", "bfs">> >>,
+  \* a quoted literal with a blank inside, split at that blank too (the user escaped the quotes from the shell)
+  << S1("select"), S1("name"), S1("from"), S1("."), S1("where"), S1("name"), <<"=", "eq">>, S1("'a"), S1("b.txt'"), S1("or"), S1("name"), S1("like"), S1("\"%"), S1("x\"") >>,
   \* a first column whose name contains an option word; arithmetic in GROUP BY written with the sign and with the word
   << <<"select", "">>, S1("exif_version"), S1(","), S1("name"), S1("from"), S1(".") >>,
   << S1("select"), S1("count(*)"), S1(","), S1("size"), <<"%", "mod">>, S1("2"), S1("from"), S1("."), S1("group"), S1("by"), S1("size"), <<"%", "mod">>, S1("2") >>,
